@@ -12,6 +12,8 @@ from .types import (TBool, TFun, TInt, TMap, TNone, TOpaque, TOpt, TRef, TSeq, T
 from .values import (NONE, SV, OutsideSubset, TBottom, TypeMismatch, box, coerce, empty_map,
                      fresh, merge, mk_bool, mk_int, mk_str, seq_literal, unbox)
 
+CONTRACT_BUILTINS = frozenset(('old', 'val', 'implies', 'forall', 'exists', 'fresh', 'keys', 'updated', 'removed', 'orelse',
+                              'is_alt', 'alt', 'cast', 'isa', 'isclass', 'invariant_of', 'unchanged', 'entry', 'is_prefix'))
 MUTATORS = ('append', 'extend', 'update', 'insert', 'remove', 'pop', 'setdefault', 'clear')
 
 
@@ -19,7 +21,10 @@ class CallMixin:
     def eval_Call(self, st, e):
         f = e.func
         # old(...) / quantifier forms in contract expressions
-        if isinstance(f, ast.Name) and f.id not in st.env and (self.in_contract or self.spec_depth > 0):
+        if isinstance(f, ast.Name) and (self.in_contract or self.spec_depth > 0) and \
+                (f.id not in st.env or f.id in CONTRACT_BUILTINS):
+            # (a contract builtin called as a function wins over a code local of the same name,
+            # e.g. a loop variable `val`)
             sp = self.contract_special(st, e)
             if sp is not None:
                 return sp
